@@ -29,6 +29,13 @@ func (t TDist) CDF(x float64) float64 {
 	if x == 0 {
 		return 0.5
 	} else if x > 0 {
+		if x < 1 {
+			// V/(V+x²) approaches 1 as x → 0 and its
+			// rounding error, magnified by V/x, swamps
+			// the result. Use the identity
+			// I_{V/(V+x²)}(V/2, 1/2) = 1 - I_{x²/(V+x²)}(1/2, V/2).
+			return 0.5 + 0.5*mathx.BetaInc(x*x/(t.V+x*x), 0.5, t.V/2)
+		}
 		return 1 - 0.5*mathx.BetaInc(t.V/(t.V+x*x), t.V/2, 0.5)
 	} else if x < 0 {
 		return 1 - t.CDF(-x)
